@@ -235,14 +235,12 @@ fn js_corpus() -> Vec<Project> {
         files.insert("/p/entry.ts".to_string(), "import parse from \"./gen/parser\";\nexport type Umlauts = \"z\" | \"\u{e4}\" | \"a\" | \"A\";\nexport type Digraphs = \"h\" | \"ch\" | \"i\" | \"c\";\nexport type Mixed = \"\u{e5}\" | \"aa\" | \"z\" | 10 | 9 | true;\nexport type Holder = { u: Umlauts; d?: Digraphs; m: Mixed[]; kind: \"\u{f6}\" | \"o\" | \"p\" };\nparse.buildParsers<{ Umlauts: Umlauts; Digraphs: Digraphs; Mixed: Mixed; Holder: Holder }>();\n".to_string());
         corpus.push(Project { id: "env_locale_literals".into(), origin: "verif/sim/src/tools.rs".into(), origin_kind: "synthetic".into(), entry: "/p/entry.ts".into(), settings: crate::model::Settings { string_formats: vec![], number_formats: vec![] }, module: "esm".into(), files });
     }
-    // modules of the recorded histories (corpus/regress_jsim.json, tools/build_regress.py)
-    if let Ok(txt) = std::fs::read_to_string(format!("{}/corpus/regress_jsim.json", crate::coord::home())) {
-        if let Ok(serde_json::Value::Array(entries)) = serde_json::from_str::<serde_json::Value>(&txt) {
-            for e in entries {
-                if let Some(p) = e.get("project").and_then(|p| serde_json::from_value::<Project>(p.clone()).ok()) {
-                    if !corpus.iter().any(|q| q.id == p.id) {
-                        corpus.push(p);
-                    }
+    // modules of the recorded histories (corpus/regress_jsim_projects.json, tools/build_regress.py)
+    if let Ok(txt) = std::fs::read_to_string(format!("{}/corpus/regress_jsim_projects.json", crate::coord::home())) {
+        if let Ok(ps) = serde_json::from_str::<Vec<Project>>(&txt) {
+            for p in ps {
+                if !corpus.iter().any(|q| q.id == p.id) {
+                    corpus.push(p);
                 }
             }
         }
